@@ -102,6 +102,9 @@ func runTracker(c *Ctx, profile string) {
 		op, a := parseOp(l)
 		replayTracker(c, op, a)
 	}
+	if profile == "C13" {
+		genServed(c, c.R, c.N/400+6)
+	}
 	r := c.R
 	seqLen := 40
 	nseq := c.N / (seqLen * 2)
